@@ -367,8 +367,8 @@ class Result:
         ordered = sorted(self.violations, key=lambda v: (not v[2],))
         any_concrete = any(v[2] for v in self.violations)
         for kind, detail, concrete in ordered:
-            if not concrete and any_concrete:
-                continue   # the broken tie is explained by the concrete input already reported
+            if not concrete and any_concrete and kind == "broken-correspondence" and "correspondence" in detail:
+                continue   # a mismatching case outside the quantifier, next to concrete failing inputs
             tag = (kind, json.dumps(detail, sort_keys=True)[:300])
             if tag in seen or len(lines) >= 5:
                 continue
